@@ -4812,6 +4812,9 @@ def container_script_repr(container,imports,prefix,settings):
     else:
         raise NotImplementedError
     rep=d1+','.join(result)+d2
+    if isinstance(container,tuple) and len(result)==1:
+        # (x) is just x: a 1-tuple needs its trailing comma
+        rep=d1+result[0]+','+d2
 
     # no imports to add for built-in types
 
